@@ -191,6 +191,7 @@ class Conformer(Species):
 
         if value is None:  # Clear the coordinates
             self._coordinates = None
+            self._clear_energies_gradient_hessian()
             return
 
         if self._parent_atoms is None:
